@@ -290,6 +290,13 @@ type closableOwnership struct {
 	closed *atomic.Bool
 }
 
+func (o closableOwnership) OverlapsTable(startKey, endKey []byte) bool {
+	if ro, ok := o.DataOwnership.(kv.TableRangeOwnership); ok {
+		return ro.OverlapsTable(startKey, endKey)
+	}
+	return true
+}
+
 func (o closableOwnership) ExclusivelyOwnsTable(uri string, startKey, endKey []byte) (bool, error) {
 	if o.closed.Load() {
 		return false, nil
